@@ -5,17 +5,29 @@ from types import SimpleNamespace
 from ufo import build, err_kind, rat
 import lib_C14 as L
 import lib_C14run as PR
+import lib_C14special as SP
 
 ID = "C14"
 THEOREM = ("Ufo2ft.C14.C14_report / C14_footprint / C14_holds / C14_exclusive / C14_stateless / C14_skipExport_empty / "
            "C14_ifootprint / C14_ireport / C14_iholds / C14_istateless / C14_run_report / C14_run_refresh / "
-           "C14_run_footprint / C14_run_route / C14_run_holds")
-PROOF_FILES = ["C14", "C14Run"]
+           "C14_run_footprint / C14_run_route / C14_run_holds / dc_footprint / dc_report / dc_holds / dc_source_glyphs / "
+           "dottedCircle_writes_source / ex_footprint / ex_holds_footprint / ex_reported_unchanged / explode_underreports / "
+           "explode_writes_source / explode_adds")
+PROOF_FILES = ["C14", "C14Run", "C14Special"]
 N = {"quick": 700, "thorough": 14000}
 RULE = ("every shipped filter class: decomposeComponents, decomposeTransformedComponents, flattenComponents, propagateAnchors, "
         "transformations, reverseContourDirection, sortContours, skipExportGlyphs (modelled in full, glyph content compared "
-        "exactly), removeOverlaps (both back-ends), cubicToQuadratic (modelled up to the outline operation), dottedCircle, "
-        "explodeColorLayerGlyphs (declared footprint), and the five interpolatable variants on 2-3 zipped masters (same "
+        "exactly), removeOverlaps (both back-ends), cubicToQuadratic (modelled up to the outline operation), dottedCircle "
+        "(modelled in full up to the drawn outline; x options margin/sidebearing/dots x U+25CC encoded or not, encoded without "
+        "outline, encoded in the font but dropped from the glyph set, an unencoded glyph named uni25CC, base/mark anchor pairs, "
+        "zero-extent glyphs, a mark anchor of a mark anchor (StatisticsError), GDEF table with / without base class / already "
+        "listing the glyph / canonical text / other features only, lib categories present or not), explodeColorLayerGlyphs "
+        "(modelled in full; 1-2 color layers whose glyphs have components inside the layer, missing bases, cycles, code "
+        "points, copies equal to the default glyph; font-level and glyph-level mappings, mapping to a missing layer / the "
+        "default layer / empty; colorLayers already present; a glyph named like a layer glyph), both compared exactly: glyph "
+        "set the filter worked on (read from filter.context.glyphSet), returned set, and the SOURCE font afterwards "
+        "(default-layer glyphs, lib categories, GDEF base classes and whether the feature text changed; all layers' glyphs "
+        "with code points, lib colorLayers; tags 'S:*'); and the five interpolatable variants on 2-3 zipped masters (same "
         "structure / sparse / structurally different) x include specs (none, name list, exclude list, 5 callables, both => "
         "ValueError for every class) x random fonts (1-13 glyphs, nested components depth<=4 with mirrored/sheared/singular "
         "matrices on a dyadic grid, mixed glyphs, open contours, off-curve starts, anchors incl. mark anchors, numbered "
@@ -56,6 +68,13 @@ ASSUMED = [
     "BaseIFilter.__call__ is an input (as above); which filter object belongs to which declaration is read from "
     "pre.preFilters / pre.postFilters",
     "the instantiator itself (fontMath / varLib interpolation) is external: 'view' compares two observations of it",
+    "DottedCircleFilter: the outline and advance of the drawn circle (math.cos/sin, pens, _setGlyphMargin) are an input, "
+    "obtained by calling draw_dotted_circle on a scratch font with the same font info; the glyphs' bounding boxes "
+    "(glyph.getBounds) are inputs; the feature file is seen through feaLib's parser as the base classes of the "
+    "GlyphClassDef statements of its GDEF blocks, 'asFea() reproduces the text' is an input; anchor positions are exact "
+    "rationals in the model, doubles in the code: a difference of 1 is accepted only where the model flags a rounding tie "
+    "of otRound; ufoLib2 only (glyph truthiness = number of contours, Glyph.__eq__ = content + code points + lib)",
+    "ExplodeColorLayerGlyphsFilter: glyph libs carry nothing but the color layer mapping (Glyph.__eq__ compares the lib)",
     "C14_source (the font is only read) holds of the model by construction (the model has no write access to the font); "
     "it is checked on the implementation by observation only",
 ]
@@ -167,35 +186,137 @@ def _gen_opaque(rng, mode, fname):
             "ulib": rng.choice(["ufoLib2", "defcon"]), "gsmode": rng.choice(["copy", "dict", "inplace"]), "exact": True}
 
 
+DC_OPTS = [{}, {}, {"margin": 40}, {"sidebearing": 100, "dots": 4}, {"dots": 1}, {"margin": 120, "sidebearing": 0}]
+CLM_KEY = "com.github.googlei18n.ufo2ft.colorLayerMapping"
+CL_KEY = "com.github.googlei18n.ufo2ft.colorLayers"
+
+
+def _gen_dotted(rng, mode, fd, case):
+    gl = fd["glyphs"]
+    names = [g["name"] for g in gl]
+    r = rng.random()
+    enc = None
+    if r < 0.55:
+        enc = rng.choice(gl); enc["unicodes"] = [0x25CC]
+        if rng.random() < 0.35:
+            enc["contours"] = []                       # encoded, but no outline: a new glyph is drawn
+        if rng.random() < 0.3:
+            enc["anchors"] = []
+    if rng.random() < 0.1 and "uni25CC" not in names:
+        # an unencoded glyph that has the name of the glyph that would be drawn
+        gl.append({"name": "uni25CC", "width": 300, "unicodes": [], "contours": [[[0, 0, "line"], [8, 0, "line"], [8, 8, "line"]]],
+                   "components": [], "anchors": [["top", 4, 8]] if rng.random() < 0.5 else []})
+    # make sure some base anchors have a mark counterpart (else nothing is ever added)
+    bases = [g for g in gl if g is not enc and not any(a[0].startswith("_") for a in g["anchors"])]
+    marks = [g for g in gl if any(a[0].startswith("_") for a in g["anchors"])]
+    if rng.random() < 0.7:
+        nm = rng.choice(["top", "bottom", "ogonek"])
+        if bases and not any(a[0] == nm for g in bases for a in g["anchors"]):
+            rng.choice(bases)["anchors"].append([nm, G_coord(rng), G_coord(rng)])
+        if not any(a[0] == "_" + nm for g in gl for a in g["anchors"]):
+            rng.choice(marks or gl)["anchors"].append(["_" + nm, G_coord(rng), G_coord(rng)])
+    if rng.random() < 0.04:
+        # a mark anchor of a mark anchor: mean([]) -> StatisticsError
+        rng.choice(gl)["anchors"].append(["__top", 1, 2])
+        rng.choice(gl)["anchors"].append(["_top", 3, 4])
+    if rng.random() < 0.25:
+        g = rng.choice(gl); g["width"] = 0            # no bounds, no width: its base anchors are skipped
+        if rng.random() < 0.5:
+            g["contours"] = []; g["components"] = []
+    r = rng.random()
+    first = gl[0]["name"]
+    if r < 0.15:
+        fd["features"] = "table GDEF { GlyphClassDef [%s], , , ; } GDEF;" % first
+    elif r < 0.27:
+        fd["features"] = "table GDEF {\n    GlyphClassDef [%s], , , ;\n} GDEF;\n" % " ".join(names[:2])    # canonical text
+    elif r < 0.34:
+        fd["features"] = "table GDEF { GlyphClassDef , [%s], , ; } GDEF;" % first                           # no base class
+    elif r < 0.42 and enc is not None:
+        fd["features"] = "table GDEF { GlyphClassDef [%s %s], , , ; } GDEF;" % (first, enc["name"])         # already a base
+    elif r < 0.47:
+        fd["features"] = "languagesystem DFLT dflt;\nfeature liga { sub %s by %s; } liga;" % (first, first)  # no GDEF
+    cats = fd["lib"].get("public.openTypeCategories")
+    if cats is None and rng.random() < 0.5:
+        cats = fd["lib"]["public.openTypeCategories"] = {n: "base" for n in names if rng.random() < 0.3}
+    if cats is not None and enc is not None and rng.random() < 0.3:
+        cats[enc["name"]] = rng.choice(["base", "mark"])
+    if enc is not None and rng.random() < 0.15:
+        case["gsmode"] = "dict"; case["drop"] = [enc["name"]]       # encoded in the font, missing from the glyph set
+
+
+def G_coord(rng):
+    import gen as G
+    return G.coord(rng, 1, 300, 0.2)
+
+
+def _gen_explode(rng, mode, fd, case):
+    import copy
+    gl = fd["glyphs"]
+    names = [g["name"] for g in gl]
+    layers = {}
+    for g in gl:
+        if rng.random() < 0.3 and not g["unicodes"]:
+            g["unicodes"] = [0xE000 + names.index(g["name"])]
+    lnames = rng.sample(["color1", "color2"], rng.choice([1, 2]))
+    for ln in lnames:
+        lay = []
+        for g in gl:
+            r = rng.random()
+            if r < 0.5:
+                lg = {"name": g["name"], "width": g["width"], "unicodes": list(g["unicodes"]) if rng.random() < 0.5 else [],
+                      "contours": g["contours"][:1], "components": [], "anchors": []}
+            elif r < 0.6:
+                lg = copy.deepcopy(g)                        # equal to the default-layer glyph: reported under its own name
+            else:
+                continue
+            lay.append(lg)
+        # components inside the layer: to layer glyphs, sometimes to a glyph the layer lacks, rarely a cycle
+        have = [g["name"] for g in lay]
+        for k, lg in enumerate(lay):
+            if k > 0 and rng.random() < 0.3:
+                lg["components"] = [[rng.choice(have[:k]), [1, 0, 0, 1, rng.choice([0, 8, -16]), 0]]
+                                    for _ in range(rng.choice([1, 1, 2]))]
+        if lay and rng.random() < 0.06:
+            rng.choice(lay)["components"].append(["zzz", [1, 0, 0, 1, 0, 0]])
+        if len(lay) > 1 and rng.random() < 0.04:
+            lay[0]["components"].append([lay[-1]["name"], [1, 0, 0, 1, 0, 0]])
+            lay[-1]["components"].append([lay[0]["name"], [1, 0, 0, 1, 0, 0]])
+        layers[ln] = lay
+    fd["layers"] = layers
+    r = rng.random()
+    if r < 0.65:
+        fd["lib"][CLM_KEY] = [[ln, i] for i, ln in enumerate(sorted(layers))]
+    elif r < 0.7:
+        fd["lib"][CLM_KEY] = [["nolayer", 0]]                # `font.layers[...]` KeyError
+    elif r < 0.75:
+        fd["lib"][CLM_KEY] = [["public.default", 1]] + [[ln, 0] for ln in lnames[:1]]
+    for g in gl:
+        if rng.random() < 0.15:
+            g.setdefault("lib", {})[CLM_KEY] = rng.choice([[[lnames[0], 3]], [], [[ln, 7] for ln in reversed(lnames)]])
+    if rng.random() < 0.12:
+        fd["lib"][CL_KEY] = {}
+    if rng.random() < 0.06:
+        # a glyph that already has the name of a color layer glyph: InvalidFontData
+        nm = rng.choice(names) + "." + lnames[0]
+        gl.append({"name": nm, "width": 100, "unicodes": [], "contours": [], "components": [], "anchors": []})
+
+
 def _gen_declared(rng, mode, fname):
+    case = {"kind": "seq", "filter": fname, "opts": {}, "ulib": "ufoLib2", "gsmode": rng.choice(["copy", "inplace"]), "exact": True}
     fonts = []
-    for _ in range(rng.choice([1, 2])):
+    for _ in range(rng.choice([1, 1, 2])):
         fd = L.gen_font(rng, "anchors", kinds=("line",), pcomp=0.3)
         if fname == "dottedCircle":
-            if rng.random() < 0.5:
-                g = rng.choice(fd["glyphs"]); g["unicodes"] = [0x25CC]
-            if rng.random() < 0.4:
-                fd["features"] = "table GDEF { GlyphClassDef [%s], , , ; } GDEF;" % fd["glyphs"][0]["name"]
+            _gen_dotted(rng, mode, fd, case)
         else:
-            layers = {}
-            names = [g["name"] for g in fd["glyphs"]]
-            for ln in rng.sample(["color1", "color2"], rng.choice([1, 2])):
-                gl = []
-                for g in fd["glyphs"]:
-                    if rng.random() < 0.6 and not g["components"]:
-                        gl.append({"name": g["name"], "width": g["width"], "unicodes": [], "contours": g["contours"][:1],
-                                   "components": [], "anchors": []})
-                layers[ln] = gl
-            fd["layers"] = layers
-            if rng.random() < 0.7:
-                fd["lib"]["com.github.googlei18n.ufo2ft.colorLayerMapping"] = [[ln, i] for i, ln in enumerate(sorted(layers))]
-            if rng.random() < 0.15:
-                fd["lib"]["com.github.googlei18n.ufo2ft.colorLayers"] = {}
+            _gen_explode(rng, mode, fd, case)
         fonts.append(fd)
+    if fname == "dottedCircle":
+        case["opts"] = dict(rng.choice(DC_OPTS))
     names = list(dict.fromkeys(g["name"] for fd in fonts for g in fd["glyphs"]))
-    inc = {"kind": "none"} if fname == "dottedCircle" else L.gen_include(rng, names)
-    return {"kind": "seq", "filter": fname, "opts": {}, "inc": inc, "fonts": fonts, "ulib": "ufoLib2",
-            "gsmode": rng.choice(["copy", "inplace"]), "exact": True}
+    case["inc"] = {"kind": "none"} if fname == "dottedCircle" else L.gen_include(rng, names)
+    case["fonts"] = fonts
+    return case
 
 
 IFILTERS = {
@@ -299,7 +420,7 @@ def gen(rng, n, mode):
             inc = rng.sample(names + ["zzz"], rng.randrange(0, 5)) if combo & 1 else None
             exc = rng.sample(names + ["zzz"], rng.randrange(0, 5)) if combo & 2 else None
             yield {"kind": "init", "filter": fname, "include": inc, "exclude": exc, "probe": names + ["zzz"]}
-    weights = [(f, 10) for f in TRANSPARENT] + [(f, 3) for f in OPAQUE] + [(f, 2) for f in DECLARED]
+    weights = [(f, 10) for f in TRANSPARENT] + [(f, 3) for f in OPAQUE] + [(f, 4) for f in DECLARED]
     bag = [f for f, w in weights for _ in range(w)]
     for _ in range(n):
         if rng.random() < 0.22:
@@ -370,7 +491,7 @@ def _ctor(case):
     o = case.get("opts", {})
     if case["filter"] == "skipExport":
         args = [list(o["skip"])]
-    elif case["filter"] in ("transform", "removeOverlaps", "cubicToQuadratic"):
+    elif case["filter"] in ("transform", "removeOverlaps", "cubicToQuadratic", "dottedCircle"):
         kwargs = dict(o)
     return cls, args, kwargs
 
@@ -386,12 +507,17 @@ def _invoke_raw(filt, fd, case):
         gs = _GlyphSet.from_layer(font, copy=True)
     elif mode == "dict":
         other = build(json.loads(json.dumps(fd)), case["ulib"])
-        gs = {g.name: g for g in other}
+        gs = {g.name: g for g in other if g.name not in case.get("drop", ())}
     else:
         gs = None
     view = gs if gs is not None else {g.name: g for g in font.layers.defaultLayer}
     before = L.snap_glyphset(view)
     src0 = L.snap_font(font)
+    sp_in, text0 = None, font.features.text or ""
+    if case["filter"] == "dottedCircle":
+        sp_in = SP.dc_before(font, fd, case, case.get("opts", {}), view)
+    elif case["filter"] == "explodeColorLayers":
+        sp_in = SP.ex_before(font, view)
     err, modified = None, None
     try:
         if filt is None:
@@ -400,6 +526,9 @@ def _invoke_raw(filt, fd, case):
         modified = sorted(str(x) for x in modified)
     except Exception as e:
         err = type(e).__name__
+    sp_obs = None
+    if sp_in is not None and err is None:
+        sp_obs = SP.dc_after(font, filt, text0) if sp_in["kind"] == "dc" else SP.ex_after(font, filt)
     after, src = None, []
     try:
         if gs is None:
@@ -420,8 +549,10 @@ def _invoke_raw(filt, fd, case):
     if err is None:
         obs["modified"] = modified
         obs["after"] = after
+        if sp_obs is not None:
+            obs["sp"] = sp_obs
     cats = fd.get("lib", {}).get("public.openTypeCategories", {})
-    fin = {"gs": before, "marks": sorted(k for k, v in cats.items() if v == "mark"),
+    fin = {"sp": sp_in, "gs": before, "marks": sorted(k for k, v in cats.items() if v == "mark"),
            "bounds": L.bounds_oracle(before) if case["filter"] == "propagate" else [],
            "cap": rat(fd["info"].get("capHeight", 0)), "xh": rat(fd["info"].get("xHeight", 0))}
     return obs, fin
@@ -590,7 +721,8 @@ def _run_prun(case):
 
 
 def _declared_names(case, fd, fin):
-    """declared footprint of the two filters that have no glyph-level model"""
+    """names the two glyph-adding filters may touch, as the harness sees them (used by classify_failure only; the Lean
+    footprint is Spec.dcTarget / Spec.exAllowedName)"""
     if case["filter"] == "dottedCircle":
         # the glyph encoded U+25CC, and 'uni25CC' which is drawn when there is none (or when the existing one
         # has no contours: `if not dotted_circle_glyph` tests the glyph's length)
@@ -677,10 +809,16 @@ def run(case):
     for i, (fin, ch) in enumerate(zip(fins, changed)):
         if ch and (len(ch) < len(fin["gs"]) or i > 0):
             nontrivial = True
-    req = {"op": "seq",
+    req = {"op": "special" if fname in DECLARED else "seq",
            "in": {"filter": lean_filter, "opts": opts, "inc": inc, "separate": case["gsmode"] != "inplace",
-                  "fonts": fins, "impl": fname, "exact": case["exact"]},
+                  "fonts": fins, "impl": fname, "exact": case["exact"], "realInc": case["inc"]},
            "obs": {"calls": calls, "fresh": fresh}, "tags": tags, "nontrivial": nontrivial}
+    if fname in DECLARED:
+        for fin, o in zip(fins, calls):
+            req["tags"] += SP.tags(fin["sp"], o)
+        req["tags"] = list(dict.fromkeys(req["tags"]))
+        if any(t in req["tags"] for t in ("S:dc-drawn", "S:dc-anchors-added", "S:ex-added")):
+            req["nontrivial"] = True
     return [req]
 
 
@@ -709,7 +847,7 @@ def agree(req, rep):
                 return False
         return True
     if impl in DECLARED:
-        return True            # no model (declared footprint only); `holds` is evaluated on the observation
+        return SP.agree(impl, m, o)
     if len(m["calls"]) != len(o["calls"]):
         return False
     for mc, oc in zip(m["calls"], o["calls"]):
@@ -774,13 +912,19 @@ def classify_failure(res):
         return _classify_iseq(r)
     if r["op"] == "prun":
         return _classify_prun(r, res.get("info"))
-    if r["op"] != "seq":
+    if r["op"] not in ("seq", "special"):
         return None
     impl = r["in"]["impl"]
     calls, fresh = r["obs"]["calls"], r["obs"]["fresh"]
     if [(c["err"], c.get("modified"), c.get("after")) for c in calls] != \
        [(c["err"], c.get("modified"), c.get("after")) for c in fresh]:
         return None                       # a statelessness failure is never a known shape
+    parts = [c for c in ((res.get("info") or {}).get("calls") or []) if c]
+    if impl in DECLARED:
+        if not (res.get("info") or {}).get("stateless", False) or any(not c["footprint"] for c in parts):
+            return None                   # the glyph-set footprint holds of both filters: a failure there is new
+        if impl == "dottedCircle" and any(not c["report"] for c in parts):
+            return None                   # DottedCircleFilter reports what it changes
     if impl == "explodeColorLayers":
         # adds '<glyph>.<layer>' glyphs but returns the names of the glyphs they were made for; writes
         # lib[colorLayers] and strips the layer glyphs' code points in the source font
@@ -983,6 +1127,19 @@ LEVEL_TEXT = ("Proved for all inputs (Lean, no bound on glyph count / nesting / 
               "itself (C14_exclusive); a reused filter object returns what a new one returns (C14_stateless, C14_istateless; "
               "SkipExportGlyphsFilter([]) never reaches set_context and raises AttributeError on every call, "
               "C14_skipExport_empty). The model is tied to the code by differential runs comparing the full glyph content. "
+              "DottedCircleFilter / ExplodeColorLayerGlyphsFilter (Model/Spec/Props C14Special, 61 theorems, the SOURCE font is "
+              "part of the state; all inputs): the only glyph-set entry DottedCircleFilter can change is the font's U+25CC glyph "
+              "(if the glyph set has it with an outline) or uni25CC, and it reports it (dc_footprint, dc_report, dc_holds); with "
+              "a separate glyph set the source font's glyphs are untouched (dc_source_glyphs); ExplodeColorLayerGlyphsFilter "
+              "only ADDS entries, named <glyph>.<layer> for glyphs of the font's layers, and changes no existing entry "
+              "(ex_footprint, ex_holds_footprint). The two KNOWN FINDINGS are theorems about the model: for every input whose "
+              "dotted circle lacks an attachment point (decidable: dcWantsAnchor) the call writes the source font - lib "
+              "categories when there is no GDEF table and the glyph is not yet a base, else the feature text is assigned and a "
+              "base class lacking the glyph gets it (dottedCircle_writes_source); for every font without a colorLayers lib key a "
+              "successful call leaves the key in the source lib (explode_writes_source); every glyph the filter adds is a new "
+              "entry missing from the returned set, the reported glyphs are unchanged, and on every input meeting the decidable "
+              "condition exWantsCopy a successful call adds a glyph, so the reporting clause is false of it "
+              "(explode_underreports, ex_reported_unchanged, explode_adds). "
               "Pre-processor level (model of BaseInterpolatablePreProcessor._run incl. _try_as_interpolatable_filter, "
               "Props/C14Run.lean, 34 theorems, all inputs): whichever way a step runs its filters - one interpolatable filter for "
               "all masters or one filter per master, with missing filters - every glyph that differs in ANY master afterwards is "
@@ -997,8 +1154,12 @@ LEVEL_TEXT = ("Proved for all inputs (Lean, no bound on glyph count / nesting / 
               "master reports nothing and never refreshes.")
 LEVEL_NOTE = ("Trusted: Lean kernel + propext/Classical.choice/Quot.sound; correspondence of the hand-written model with "
               "filters/*.py, util.py and the fontTools pens is differential (bounded by the generators). removeOverlaps / "
-              "cubicToQuadratic are modelled with the outline operation as a parameter; dottedCircle and "
-              "explodeColorLayerGlyphs have only a declared footprint checked on observations. 'The font is only read' is "
+              "cubicToQuadratic are modelled with the outline operation as a parameter; dottedCircle is modelled "
+              "with the drawn outline, the bounding boxes and feaLib's parse/serialise as inputs, explodeColorLayerGlyphs in "
+              "full (the layer glyph OBJECT moves into the glyph set; its components are renamed one by one and its code "
+              "points stripped in the source font); both are compared exactly incl. the source font afterwards, and "
+              "classify_failure names the two known shapes only when the Lean verdict is 'footprint holds (and, for "
+              "dottedCircle, reporting holds)'. 'The font is only read' is "
               "true of the model by construction and is checked on the implementation by before/after snapshots. Two "
               "deviations of the code are classified as known findings (dottedCircle and explodeColorLayerGlyphs write the "
               "source font / under-report added glyphs). FlattenComponentsIFilter reporting only the last master's flag was "
